@@ -232,8 +232,8 @@ def _subst(s, base):
     return _AT.sub(lambda m: str(base + int(m.group(1))), s) if isinstance(s, str) else s
 
 
-def layout(items, extra_sheets=None, sheet='S', first_row=1):
-    cells = {}
+def layout(items, extra_sheets=None, sheet='S', first_row=1, base_cells=None, sheet_pos=0):
+    cells = dict(base_cells or {})
     bases = []
     row = first_row
     for it in items:
@@ -243,11 +243,13 @@ def layout(items, extra_sheets=None, sheet='S', first_row=1):
         for a, f in it['f'].items():
             cells[_subst(a, row)] = _subst(f, row)
         row += it.get('h', 1)
-    sheets = [(sheet, cells)] + list(extra_sheets or [])
+    extra = list(extra_sheets or [])
+    sheets = extra[:sheet_pos] + [(sheet, cells)] + extra[sheet_pos:]
     return sheets, bases
 
 
-def compile_items(items, extra_sheets=None, safety=False, stats=None, sheet='S', batch=200):
+def compile_items(items, extra_sheets=None, safety=False, stats=None, sheet='S', batch=200, first_row=1, base_cells=None,
+                  sheet_pos=0):
     """Translate + load formula items batch-wise, bisecting on failure.
     Returns per item ('OK', cls, base_row) or (failure outcome, detail, None)."""
     if stats is None:
@@ -256,7 +258,7 @@ def compile_items(items, extra_sheets=None, safety=False, stats=None, sheet='S',
 
     def run(idx):
         sub = [items[i] for i in idx]
-        sheets, bases = layout(sub, extra_sheets, sheet)
+        sheets, bases = layout(sub, extra_sheets, sheet, first_row, base_cells, sheet_pos)
         stats['translations'] = stats.get('translations', 0) + 1
         stats['transitions'] = stats.get('transitions', 0) + 1
         kind, text = translate(sheets, safety=safety)
